@@ -181,6 +181,35 @@ type ClientCase struct {
 	PatchSocks5   int       `json:"patchSocks5"` // -1 unset
 	PatchActive   int       `json:"patchActive"` // -1 unset, index into merged names
 	PatchLogging  int       `json:"patchLogging"`
+	// every other top-level field, independently set or left alone by the patch
+	HTTPListenLAN      int         `json:"httpListenLAN,omitempty"`      // base: 0 unset, 1 false, 2 true
+	Adv                int         `json:"adv,omitempty"`                // base: 0 unset, 1 "30s", 2 "2h"
+	PatchRPC           int         `json:"patchRPC"`                     // -1 unset
+	PatchHTTP          int         `json:"patchHTTP"`                    // -1 unset
+	PatchListenLAN     int         `json:"patchListenLAN,omitempty"`     // 0 unset, 1 false, 2 true
+	PatchHTTPListenLAN int         `json:"patchHTTPListenLAN,omitempty"` // 0 unset, 1 false, 2 true
+	PatchAdv           int         `json:"patchAdv,omitempty"`           // 0 unset, 1 "30s", 2 "2h"
+	PatchAuth          [][2]string `json:"patchAuth,omitempty"`
+}
+
+func optBool(v int) *bool {
+	switch v {
+	case 1:
+		return proto.Bool(false)
+	case 2:
+		return proto.Bool(true)
+	}
+	return nil
+}
+
+func optAdv(v int) *pb.ClientAdvancedSettings {
+	switch v {
+	case 1:
+		return &pb.ClientAdvancedSettings{MetricsLoggingInterval: proto.String("30s")}
+	case 2:
+		return &pb.ClientAdvancedSettings{MetricsLoggingInterval: proto.String("2h")}
+	}
+	return nil
 }
 
 func (c ClientCase) config() *pb.ClientConfig {
@@ -204,6 +233,8 @@ func (c ClientCase) config() *pb.ClientConfig {
 	for _, a := range c.Auth {
 		cc.Socks5Authentication = append(cc.Socks5Authentication, &pb.Auth{User: proto.String(a[0]), Password: proto.String(a[1])})
 	}
+	cc.HttpProxyListenLAN = optBool(c.HTTPListenLAN)
+	cc.AdvancedSettings = optAdv(c.Adv)
 	return cc
 }
 
@@ -251,6 +282,16 @@ func genClient(t *rapid.T) ClientCase {
 	c.PatchSocks5 = rapid.SampledFrom([]int{-1, -1, 1081}).Draw(t, "patchSocks5")
 	c.PatchActive = rapid.SampledFrom([]int{-1, -1, 0, 1}).Draw(t, "patchActive")
 	c.PatchLogging = rapid.SampledFrom([]int{-1, -1, 1, 3}).Draw(t, "patchLogging")
+	c.HTTPListenLAN = rapid.IntRange(0, 2).Draw(t, "httpListenLAN")
+	c.Adv = rapid.IntRange(0, 2).Draw(t, "adv")
+	c.PatchRPC = rapid.SampledFrom([]int{-1, -1, 9000}).Draw(t, "patchRPC")
+	c.PatchHTTP = rapid.SampledFrom([]int{-1, -1, 8081}).Draw(t, "patchHTTP")
+	c.PatchListenLAN = rapid.SampledFrom([]int{0, 0, 1, 2}).Draw(t, "patchListenLAN")
+	c.PatchHTTPListenLAN = rapid.SampledFrom([]int{0, 0, 1, 2}).Draw(t, "patchHTTPListenLAN")
+	c.PatchAdv = rapid.SampledFrom([]int{0, 0, 1, 2}).Draw(t, "patchAdv")
+	for i := rapid.SampledFrom([]int{0, 0, 1, 2}).Draw(t, "nPatchAuth"); i > 0; i-- {
+		c.PatchAuth = append(c.PatchAuth, [2]string{genText(t, "pAuthUser", 30), genText(t, "pAuthPass", 30)})
+	}
 	return c
 }
 
@@ -420,6 +461,30 @@ func propClient(c ClientCase) (o pbt.Outcome) {
 		if exp.LoggingLevel == nil {
 			exp.LoggingLevel = pb.LoggingLevel(0).Enum() // default normalised
 		}
+		if c.PatchRPC >= 0 {
+			patch.RpcPort, exp.RpcPort = proto.Int32(int32(c.PatchRPC)), proto.Int32(int32(c.PatchRPC))
+		}
+		if c.PatchHTTP >= 0 {
+			patch.HttpProxyPort, exp.HttpProxyPort = proto.Int32(int32(c.PatchHTTP)), proto.Int32(int32(c.PatchHTTP))
+		}
+		if b := optBool(c.PatchListenLAN); b != nil {
+			patch.Socks5ListenLAN, exp.Socks5ListenLAN = b, proto.Bool(*b)
+		}
+		if b := optBool(c.PatchHTTPListenLAN); b != nil {
+			patch.HttpProxyListenLAN, exp.HttpProxyListenLAN = b, proto.Bool(*b)
+		}
+		if a := optAdv(c.PatchAdv); a != nil {
+			patch.AdvancedSettings, exp.AdvancedSettings = a, optAdv(c.PatchAdv)
+		}
+		if len(c.PatchAuth) > 0 {
+			exp.Socks5Authentication = nil
+			for _, a := range c.PatchAuth {
+				patch.Socks5Authentication = append(patch.Socks5Authentication, &pb.Auth{User: proto.String(a[0]), Password: proto.String(a[1])})
+				exp.Socks5Authentication = append(exp.Socks5Authentication, &pb.Auth{User: proto.String(a[0]), Password: proto.String(a[1])})
+			}
+		}
+		expValid := appctl.ValidateFullClientConfig(exp) == nil
+		o.Label("patchedConfigValid=%v", expValid)
 		pj, err := common.MarshalJSON(patch)
 		if err != nil {
 			o.Failf("harness", "marshal patch: %v", err)
@@ -430,6 +495,14 @@ func propClient(c ClientCase) (o pbt.Outcome) {
 		ppath := filepath.Join(pdir, "patch.json")
 		os.WriteFile(ppath, pj, 0o600)
 		if err := appctl.ApplyJSONClientConfig(ppath); err != nil {
+			if !expValid {
+				// a patch whose result is not a valid configuration is refused
+				// and the stored configuration stays as it was
+				if still, lerr := appctl.LoadClientConfig(); lerr != nil || !proto.Equal(still, want) {
+					o.Failf("patch", "a refused patch changed the stored configuration (load err %v)", lerr)
+				}
+				return
+			}
 			o.Failf("patch", "ApplyJSONClientConfig failed on a valid patch: %v", err)
 			return
 		}
@@ -456,6 +529,9 @@ type SUser struct {
 	Password string   `json:"password"`
 	Quotas   [][2]int `json:"quotas,omitempty"`
 	Loop     bool     `json:"loop,omitempty"`
+	// Form: 0 password only, 1 hashedPassword only (as "describe config" prints
+	// it), 2 both - a new password next to the hash of an older one
+	Form int `json:"form,omitempty"`
 }
 
 type ServerCase struct {
@@ -476,6 +552,13 @@ type ServerCase struct {
 
 func (u SUser) proto(marker string) *pb.User {
 	p := &pb.User{Name: proto.String(u.Name), Password: proto.String(marker + u.Password)}
+	switch u.Form {
+	case 1:
+		p.Password = nil
+		p.HashedPassword = proto.String(hashed(marker+u.Password, u.Name))
+	case 2:
+		p.HashedPassword = proto.String(hashed("an older password", u.Name))
+	}
 	for _, q := range u.Quotas {
 		p.Quotas = append(p.Quotas, &pb.Quota{Days: proto.Int32(int32(q[0])), Megabytes: proto.Int32(int32(q[1]))})
 	}
@@ -486,7 +569,7 @@ func (u SUser) proto(marker string) *pb.User {
 }
 
 func genSUser(t *rapid.T, name string) SUser {
-	u := SUser{Name: name, Password: genText(t, "spw", 40), Loop: rapid.Bool().Draw(t, "loop")}
+	u := SUser{Name: name, Password: genText(t, "spw", 40), Loop: rapid.Bool().Draw(t, "loop"), Form: rapid.SampledFrom([]int{0, 0, 1, 2}).Draw(t, "form")}
 	nq := rapid.IntRange(0, 2).Draw(t, "nq")
 	for i := 0; i < nq; i++ {
 		u.Quotas = append(u.Quotas, [2]int{rapid.IntRange(1, 365).Draw(t, "days"), rapid.IntRange(1, 1<<20).Draw(t, "mb")})
